@@ -159,6 +159,8 @@ struct row {
     bool sub_io;               /* input subpipes: flow definitions and buffers go to subpipe 0 (the second subpipe stays an idle input) */
     bool pump_to_main;         /* with sub_io: the main pipe is an input too; it gets its definition at allocation and the buffers of the upstream pump */
     bool endless;              /* a source whose timer re-arms for ever: the loop is not drained before the release */
+    bool sound_provenance;     /* sound rows that copy samples: the first sample of a delivered buffer tells which input it came from, hence
+                                * under which definition it was input (C04: it must come out under that definition) */
     bool out_not_block;        /* the pipe asks for a non-block buffer manager: the sinks never answer requests themselves (they only have a block manager) */
     unsigned in_shapes;        /* mask of the input shapes offered (0: all five) */
     bool pic_size_oracle;      /* C04: every picture delivered to a sink has the hsize / vsize of the last definition that sink accepted */
@@ -1004,6 +1006,13 @@ static struct upipe *alloc_row_split(struct side *s)
     return p;
 }
 /* audio_copy is allocated with the number of samples of its output buffers */
+/* audio_copy: the two input definitions differ by their sample rate, which the pipe carries over to its output definition: the rate
+ * the sink last accepted tells which input definition it stands for */
+static void fix_sound_rate(struct uref *f, int id)
+{
+    fix_sound(f, id);
+    ubase_assert(uref_sound_flow_set_rate(f, id == 2 ? 44100 : 48000));
+}
 static struct upipe *alloc_audio_copy(struct side *s)
 {
     struct uref *f = px_flow(&s->fx, "sound.s32.", 9); /* the attributes given here override those of the input definition */
@@ -1692,7 +1701,7 @@ static const struct row rows[] = {
      .pic_w = 720, .pic_h = 480, .out_def_prefix = "pic.", .out_not_block = true},
     {.name = "rtp_pcm_pack", .kind = K_RECHUNK, .alloc = alloc_rtp_pcm_pack, .bad_def = "block.", .in_def = "sound.s32.", .flow_fix = fix_sound, .mk_input = mk_sound,
      .out_def_prefix = "block.s24be.sound."},
-    {.name = "audio_copy", .kind = K_RECHUNK, .alloc = alloc_audio_copy, .bad_def = "block.", .in_def = "sound.s32.", .flow_fix = fix_sound, .mk_input = mk_sound,
+    {.name = "audio_copy", .kind = K_RECHUNK, .alloc = alloc_audio_copy, .bad_def = "block.", .in_def = "sound.s32.", .flow_fix = fix_sound_rate, .mk_input = mk_sound, .sound_provenance = true,
      .out_def_prefix = "sound.s32.", .out_not_block = true},
     {.name = "crop", .kind = K_RECHUNK, .alloc = alloc_crop, .bad_def = "block.", .in_def = "pic.", .flow_fix = fix_crop, .mk_input = mk_crop,
      .pic_w = 8, .pic_h = 4, .out_def_prefix = "pic.", .out_not_block = true, .pic_size_oracle = true,
@@ -1911,6 +1920,12 @@ static void cat_sink_input(struct upipe *upipe, struct uref *uref, struct upump 
             s->rec_w[fx->nsrec] = (int)w;
             s->rec_h[fx->nsrec] = (int)h;
         }
+        const int32_t *smp;
+        if (g_row->sound_provenance && uref->ubuf != NULL && ubase_check(uref_sound_read_int32_t(uref, 0, 1, &smp, 1))) {
+            s->rec_w[fx->nsrec] = -2; /* marks a provenance record: rec_h = sequence number of the input the first sample came from */
+            s->rec_h[fx->nsrec] = (int)((((uint32_t)smp[0] >> 24) - 1) / 16);
+            uref_sound_unmap(uref, 0, 1, 1);
+        }
     }
     px_sink_input(upipe, uref, upump_p);
 }
@@ -1929,6 +1944,11 @@ static int cat_sink_control(struct upipe *upipe, int command, va_list args)
             s->rec_w[fx->nsrec] = (int)w;
             s->rec_h[fx->nsrec] = (int)h;
         }
+        uint64_t rate;
+        if (g_row->sound_provenance && flow_def != NULL && ubase_check(uref_sound_flow_get_rate(flow_def, &rate))) {
+            s->rec_w[fx->nsrec] = -3; /* definition record of a provenance row: rec_h = sample rate */
+            s->rec_h[fx->nsrec] = (int)rate;
+        }
     }
     return px_sink_control(upipe, command, args);
 }
@@ -1945,7 +1965,7 @@ static void side_init(struct st *st, struct side *s, bool with_getters)
     for (int i = 0; i < PX_NSINKS; i++) {
         s->fx.sinks[i].unhandled_requests = true; /* requests end up at the probes, which provide */
         s->fx.sinks[i].sync_provide = g_prov == 1 && !g_row->out_not_block; /* ... or the sinks answer with the shared managers */
-        s->fx.sinks[i].defer_provide = g_prov == 2 && !g_row->out_not_block; /* ... or later, when the history says so */
+        s->fx.sinks[i].defer_provide = g_prov == 2 && (!g_row->out_not_block || g_row->sound_provenance); /* ... or later, when the history says so */
         s->fx.sinks[i].mgr.upipe_input = cat_sink_input;
         s->fx.sinks[i].mgr.upipe_control = cat_sink_control;
     }
@@ -1955,6 +1975,8 @@ static void side_init(struct st *st, struct side *s, bool with_getters)
     s->src_pump = upump_alloc_idler(s->src_mgr, src_pump_cb, s, NULL);
     assert(s->src_mgr && s->src_pump);
     upump_start(s->src_pump);
+    if (g_prov == 2 && g_row->sound_provenance)
+        s->fx.alt_ubuf_mgr = side_sound_mgr(s); /* the late providers hand out the upstream's sound manager */
     s->pipe = g_row->alloc(s);
     assert(s->pipe);
     if (s->qsrc) /* the far end of the queue delivers into S0 */
@@ -2441,7 +2463,9 @@ static int apply(void *vst, int op, bool check)
 
     /* ---- C04: a sink that was given a buffer during this step must have accepted, as its last definition, the one the pipe
      * advertises now (a definition amended in place never reaches the output) ---- */
-    if ((g_oracle & O_C04) && !st->released) {
+    /* (not for the step in which late providers answer: a definition queued behind held buffers is then applied in the same step,
+     * after the buffers of the previous flow went out - the pipe rightly advertises the new one at the end of the step) */
+    if ((g_oracle & O_C04) && !st->released && !(g_prov == 2 && op == OP_PROVIDE)) {
         struct { struct upipe *p; int sink; } outs[3] = {{st->a.tail ? st->a.tail : st->a.pipe, g_row->sub_io || g_row->flowdef_in_band ? -1 : st->out - 1},
                                                           {st->a.subs[0], st->om[1].live && st->om[1].out ? st->om[1].out - 1 : -1},
                                                           {st->a.subs[1], st->om[2].live && st->om[2].out ? st->om[2].out - 1 : -1}};
@@ -2701,7 +2725,17 @@ static int final_check(void *vst)
                         FAIL(st, "flow:data-before-definition", "sink %d received a buffer (seq=%" PRId64 ") before any flow definition", k, g->seq);
                     else if (!ok)
                         FAIL(st, "flow:data-while-rejecting", "sink %d received a buffer (seq=%" PRId64 ") although it rejected the last flow definition", k, g->seq);
-                    else if (g_row->kind == K_HOLD && !g_row->flowdef_in_band && g->seq >= 0 && g->seq < st->nseq) {
+                    else if (g_row->sound_provenance && st->a.rec_w[i] == -2 && st->a.rec_h[i] >= 0 && st->a.rec_h[i] < st->nseq &&
+                             st->exp[st->a.rec_h[i]].used && !st->exp[st->a.rec_h[i]].reentrant) {
+                        int cur_rate = -1;
+                        for (int j = 0; j < i; j++)
+                            if (fx->srec[j].sink == k && fx->srec[j].kind == PXS_FLOWDEF && st->a.rec_w[j] == -3)
+                                cur_rate = st->a.rec_h[j];
+                        int in_flow = st->exp[st->a.rec_h[i]].flow;
+                        if (cur_rate != (in_flow == 2 ? 44100 : 48000))
+                            FAIL(st, "flow:stale-definition", "sink %d received samples of input %d, which was input under definition F%d (%d Hz), while the last definition it accepted announces %d Hz", k,
+                                 st->a.rec_h[i], in_flow, in_flow == 2 ? 44100 : 48000, cur_rate);
+                    } else if (g_row->kind == K_HOLD && !g_row->flowdef_in_band && g->seq >= 0 && g->seq < st->nseq) {
                         /* a pipe that keeps buffers: each must still come out under the definition in force when it went in */
                         struct expect *x = &st->exp[g->seq];
                         if (!x->reentrant && cur_id != x->flow)
